@@ -258,12 +258,13 @@ fn run_bc(args: &Args) {
     rep.finish();
 }
 
-/// damage: index space = [0, nprefix) prefixes ++ [nprefix, count) bit flips.
-///   pkg=<file> step=<prefix length step> nprefix=<number of prefix cases>
+/// damage: index space = [0, nprefix) prefixes ++ [nprefix, nprefix + ntrail) trailing bytes ++ [.., count) bit flips.
+///   pkg=<file> step=<prefix length step> nprefix=<number of prefix cases> ntrail=<number of trailing-byte cases>
 fn run_damage(args: &Args) {
     let pkg = PathBuf::from(args.get("pkg").expect("pkg=<file>"));
     let step: usize = args.get("step").map(|s| s.parse().unwrap()).unwrap_or(1);
     let nprefix: u64 = args.get("nprefix").map(|s| s.parse().unwrap()).unwrap_or(0);
+    let ntrail: u64 = args.get("ntrail").map(|s| s.parse().unwrap()).unwrap_or(0);
     let orig = std::fs::read(&pkg).unwrap();
     let mut rep = Reporter::new(args);
     let limit = (1usize << 30).max(orig.len() * 256);
@@ -276,6 +277,32 @@ fn run_damage(args: &Args) {
         let (class, desc, data): (&str, String, Vec<u8>) = if idx < nprefix {
             let n = ((idx as usize) * step).min(orig.len() - 1);
             ("truncation", format!("prefix of {} bytes of {} ({} bytes)", n, pkg.display(), orig.len()), orig[..n].to_vec())
+        } else if idx < nprefix + ntrail {
+            // the undamaged file followed by extra bytes
+            let k = idx - nprefix;
+            let mut rng = Rng::new(args.seed, 0x18db, idx);
+            let mut d = orig.clone();
+            let what = match k % 4 {
+                0 => {
+                    d.extend(std::iter::repeat(0u8).take(1 + (k as usize / 4) % 40));
+                    "zero bytes"
+                }
+                1 => {
+                    d.extend(std::iter::repeat(0xffu8).take(1 + (k as usize / 4) % 40));
+                    "0xff bytes"
+                }
+                2 => {
+                    let n = 1 + rng.below(64);
+                    d.extend((0..n).map(|_| rng.next() as u8));
+                    "random bytes"
+                }
+                _ => {
+                    let n = 1 + rng.below(orig.len());
+                    d.extend_from_slice(&orig[..n]);
+                    "bytes of itself"
+                }
+            };
+            ("trailing", format!("{} ({} bytes) followed by {} {}", pkg.display(), orig.len(), d.len() - orig.len(), what), d)
         } else {
             let mut rng = Rng::new(args.seed, 0x18da, idx);
             let pos = rng.below(orig.len());
@@ -314,7 +341,18 @@ fn run_damage(args: &Args) {
                     rep.bad(idx, "c18:decoder:refused-without-message", "refused with an empty error message", &desc, class);
                 }
             }
-            Ok((1, _)) => rep.count(&format!("{}:accepted-equal-program", class), 1),
+            Ok((1, _)) => {
+                // the file differs from the original, the program does not: the decoder ignores part of the file.
+                // Every accepted file b must satisfy encode(decode(b)) == b, so this is a refusal that is missing.
+                rep.count(&format!("{}:accepted-equal-program", class), 1);
+                rep.bad(
+                    idx,
+                    &format!("c18:damaged-package-accepted-as-original:{}", class),
+                    &format!("decode_program_from_bytes accepts a file that differs from the original package and returns the original program (encode(decode(b)) != b): {}", desc),
+                    &desc,
+                    class,
+                );
+            }
             Ok((_, _)) => {
                 rep.count(&format!("{}:accepted-different-program", class), 1);
                 if shown < 2 {
